@@ -93,6 +93,61 @@ def havoc_conditions(src, frontend):
                  for _, _, t in edits]
 
 
+def desugar_destructuring_assign(src):
+    """R13-auto: a destructuring assignment statement `(A, B, ..) = EXPR;` (not supported by Verus) is desugared the way rustc does:
+    `let (verif_d0, verif_d1, ..) = EXPR; A = verif_d0; B = verif_d1; ..`."""
+    toks = extract.code_tokens(src)
+    edits = []
+    for i, (kind, s, e) in enumerate(toks):
+        if not (kind == "punct" and src[s] == "(" and i > 0):
+            continue
+        prev = src[toks[i - 1][1]:toks[i - 1][2]]
+        if prev not in (";", "{", "}"):
+            continue
+        try:
+            close = extract.match_brace(src, toks, i, "(", ")")
+        except Exception:
+            continue
+        if close + 1 >= len(toks):
+            continue
+        a, b = toks[close + 1][1], toks[close + 1][2]
+        if src[a:a + 1] != "=" or src[a:a + 2] in ("==", "=>"):
+            continue
+        # left-hand side: places separated by top-level commas
+        inner = src[toks[i][2]:toks[close][1]]
+        if "(" in inner or "|" in inner or not inner.strip():
+            continue
+        places = [x.strip() for x in inner.split(",") if x.strip()]
+        if len(places) < 2:
+            continue
+        # end of the statement
+        depth = 0
+        end = None
+        for j in range(close + 2, len(toks)):
+            if toks[j][0] != "punct":
+                continue
+            ch = src[toks[j][1]]
+            if ch in "([{":
+                depth += 1
+            elif ch in ")]}":
+                depth -= 1
+                if depth < 0:
+                    break
+            elif ch == ";" and depth == 0:
+                end = toks[j][2]
+                break
+        if end is None:
+            continue
+        names = ["verif_d%d" % k for k in range(len(places))]
+        new = "let (%s) = %s %s" % (", ".join(names), src[toks[close + 1][2]:end - 1].strip(), "; " + " ".join("%s = %s;" % (p_, n) for p_, n in zip(places, names)))
+        edits.append((s, end, new, "(%s) = .." % ", ".join(places)))
+    notes = []
+    for s0, e0, new, what in sorted(edits, reverse=True):
+        src = src[:s0] + new + src[e0:]
+        notes.append("R13-auto: destructuring assignment `%s` desugared to `let (verif_d..) = ..;` plus one assignment per place" % what)
+    return src, notes
+
+
 class Undecided(Exception):
     pass
 
@@ -106,12 +161,13 @@ def build_unit(name):
     unit = load_unit(name)
     X = extract.Extractor()
     src = unit.build(X)
+    src, notes = desugar_destructuring_assign(src)
     src = src + CANARY
     os.makedirs(BUILD, exist_ok=True)
     path = os.path.join(BUILD, name + ".rs")
     with open(path, "w", encoding="utf-8") as f:
         f.write(src)
-    return {"path": path, "src": src, "X": X, "unit": unit, "name": name}
+    return {"path": path, "src": src, "X": X, "unit": unit, "name": name, "auto_notes": notes}
 
 
 ASSUME_TOKENS = ["assume(", "admit(", "external_body", "assume_specification", "verifier::external",
@@ -201,7 +257,7 @@ def run_unit(name, tier):
             return out
     out["assumptions"] = [a["what"] for a in declared] + list(getattr(unit, "TRUSTED", []))
     r = verus.run(b["path"], rlimit=getattr(unit, "RLIMIT", 30))
-    out["auto_rewrites"] = []
+    out["auto_rewrites"] = list(b.get("auto_notes", []))
     for _ in range(4):
         if not (r["undecided"] and r.get("frontend")):
             break
